@@ -292,6 +292,62 @@ func (c *c05Case) runPropName(ctx *core.Ctx, name string) {
 	}
 }
 
+// runShadowPath: a prop (or a front-matter key of the component) with the name of an includer
+// variable is the component's value of that name for every way of reading it - also for a path
+// below it that only the includer's value has (user.name where the includer's user is a map
+// with a name and the component's user is another map, a text, a number, nothing).
+func (c *c05Case) runShadowPath(ctx *core.Ctx, how string) {
+	ctx.NonTrivial()
+	attr, fm := "", ""
+	inner := "" // what the component's own user prints as
+	switch how {
+	case "boundmap":
+		attr, inner = ` :user="guest"`, "map[role:guest]"
+	case "static":
+		attr, inner = ` user="nobody"`, "nobody"
+	case "boundint":
+		attr, inner = ` :user="seven"`, "7"
+	case "boundempty":
+		attr, inner = ` :user="emptymap"`, "map[]"
+	case "frontmatter":
+		fm, inner = "---\nuser:\n  role: fm\n---\n", "map[role:fm]"
+	case "loopvar":
+		inner = "x"
+	}
+	comp := fm + `<p id="c">[{{ user.name }}]<i :title="user.name" :class="{on: user.name}">t</i><u v-if="user.name">if</u><s v-for="ch in user.tags">{{ ch }}</s>{{ user }}</p>`
+	if how == "loopvar" {
+		comp = `<div v-for="user in items"><p id="c">[{{ user.name }}]<i :title="user.name" :class="{on: user.name}">t</i><u v-if="user.name">if</u><s v-for="ch in user.tags">{{ ch }}</s>{{ user }}</p></div>`
+	}
+	tag, end := `template include="components/Who.vuego"`, "template"
+	if c.Short {
+		tag, end = "who", "who"
+	}
+	files := Files{"components/Who.vuego": comp, "page.vuego": `<` + tag + attr + `></` + end + `><p id="after">{{ user.name }}</p>`}
+	data := map[string]any{"user": map[string]any{"name": "Ann", "tags": []string{"a", "b"}}, "guest": map[string]any{"role": "guest"}, "seven": 7, "emptymap": map[string]any{}, "items": []string{"x"}}
+	ctx.Eval(1)
+	out, err := renderPage(files, "page.vuego", data, vuego.WithComponents())
+	if err != nil {
+		ctx.Violation("render-error", "shadowpath", how, fmt.Sprintf("%s: %v", files, err))
+		return
+	}
+	nodes := htmlcmp.Parse(out)
+	cp := htmlcmp.ByID(nodes, "c")
+	if cp == nil {
+		ctx.Violation("prop-value", "shadowpath/"+how, "component-lost", fmt.Sprintf("%s out %q", files, out))
+		return
+	}
+	got := strings.Join(strings.Fields(htmlcmp.Text(cp)), " ")
+	ctx.Outcome(got)
+	// nothing of the includer's user: no name, no title, no class, no v-if branch, no tags - only the component's own value
+	want := "[]t" + inner
+	if strings.ReplaceAll(got, " ", "") != strings.ReplaceAll(want, " ", "") || strings.Contains(out, `title="Ann"`) || strings.Contains(out, `class="on"`) {
+		ctx.Violation("prop-value", "shadowpath/"+how, "includer-value-below-shadowed-name", fmt.Sprintf("%s\nthe component shows %q (out %q), want %q: its own user has no name and no tags", files, got, clip(out, 300), want))
+	}
+	if a := htmlcmp.ByID(nodes, "after"); a == nil || htmlcmp.Text(a) != "Ann" {
+		ctx.Violation("leak", "shadowpath/"+how, "after", fmt.Sprintf("%s out %q", files, out))
+	}
+}
+
 // c05JSONish: static prop texts that start like JSON. A text that IS one JSON array or object is
 // decoded (the documented way of handing a list to a component from the tag); any other text is
 // the string the template's author wrote. Want = what {{ p }} prints in the component.
@@ -477,6 +533,10 @@ func (c *c05Case) Run(ctx *core.Ctx) {
 	}
 	if strings.HasPrefix(c.Shape, "propname:") {
 		c.runPropName(ctx, strings.TrimPrefix(c.Shape, "propname:"))
+		return
+	}
+	if strings.HasPrefix(c.Shape, "shadowpath:") {
+		c.runShadowPath(ctx, strings.TrimPrefix(c.Shape, "shadowpath:"))
 		return
 	}
 	if strings.HasPrefix(c.Shape, "jsonish:") {
@@ -694,6 +754,10 @@ func init() {
 			for _, name := range []string{"key", "is", "ref", "slot", "name", "id", "title", "type", "index", "item", "data", "value"} {
 				emit(&c05Case{Shape: "propname:" + name})
 				emit(&c05Case{Shape: "propname:" + name, Short: true})
+			}
+			for _, how := range []string{"boundmap", "static", "boundint", "boundempty", "frontmatter", "loopvar"} {
+				emit(&c05Case{Shape: "shadowpath:" + how})
+				emit(&c05Case{Shape: "shadowpath:" + how, Short: true})
 			}
 			for n := range c05JSONish {
 				emit(&c05Case{Shape: fmt.Sprintf("jsonish:%d", n)})
